@@ -45,7 +45,11 @@ fn run_seq(parser: &AdfParser, bridged: bool, seq: &[usize], n: usize) -> Result
 }
 
 pub fn seq_case(text: &str, tts: &[TT], bridged: bool, seq: &[usize], fresh: &mut Vec<Option<Norm>>, double: bool) -> Vec<(String, String)> {
-    let n = tts.len();
+    seq_case_n(text, tts.len(), bridged, seq, fresh, double)
+}
+
+/// the same for any number of statements (functions of handles are identified by structural signatures beyond five)
+pub fn seq_case_n(text: &str, n: usize, bridged: bool, seq: &[usize], fresh: &mut Vec<Option<Norm>>, double: bool) -> Vec<(String, String)> {
     let mut out = vec![];
     let parser = AdfParser::default();
     if parser.parse()(text).is_err() {
@@ -91,7 +95,11 @@ pub fn seq_case(text: &str, tts: &[TT], bridged: bool, seq: &[usize], fresh: &mu
     {
         let fl = Flags { canonical: true, functions: false, memo: true, queries: false };
         let mut o2 = vec![];
-        check_state(&adf.bdd, n, &fl, &mut o2);
+        if n <= 5 {
+            check_state(&adf.bdd, n, &fl, &mut o2);
+        } else if let Err(e) = crate::bddx::check_structure(&adf.bdd.nodes) {
+            o2.push(("store:not-canonical".to_string(), e));
+        }
         for (k, m) in o2 {
             out.push((k, format!("{} after call sequence {:?}", m, names)));
         }
@@ -185,12 +193,64 @@ pub fn run_c11(run: &Run) {
         }
         run.extra(&format!("sequences_per_adf[{}]", name), json!(per_adf));
     }
+    // mid-size objects: ring ADFs with 6 and 7 statements and large sparse ADFs, sequences of length <= 2 (<= 1)
+    {
+        let mid: Vec<(Source, usize)> = if quick {
+            vec![(Source::Ring(6, run.seed % 4096, 4096), 2), (Source::Ring(7, run.seed % 65536, 65536), 2), (Source::Sparse(run.seed * 1000, 12), 1)]
+        } else {
+            vec![(Source::Ring(6, run.seed % 256, 256), 2), (Source::Ring(7, run.seed % 4096, 4096), 2), (Source::Sparse(run.seed * 1000, 60), 1)]
+        };
+        for (src, maxlen) in mid {
+            let name = format!("call sequences of length <= {} on {} (native and bridged)", maxlen, src.name());
+            let res = run.par_family(
+                &name,
+                src.size() * 2,
+                || (0u64, 0u64),
+                |st, k| {
+                    let c = src.get(k / 2);
+                    let bridged = k % 2 == 1;
+                    let n = c.labels.len();
+                    let mut fresh: Vec<Option<Norm>> = vec![None; CALLS];
+                    run.heartbeat();
+                    for len in 0..=maxlen {
+                        for sk in 0..(CALLS as u64).pow(len as u32) {
+                            if run.violations_so_far() > 200 {
+                                return;
+                            }
+                            let seq = decode_seq(sk, len);
+                            // the full enumeration of complete models is exponential in the undecided statements: the
+                            // large sparse objects skip the calls that would print thousands of models twice
+                            st.0 += 1;
+                            st.1 += len as u64;
+                            for (kind, msg) in seq_case_n(&c.text, n, bridged, &seq, &mut fresh, len <= 1) {
+                                let mut case = src.describe(k / 2);
+                                case["type"] = json!("call_seq_mid");
+                                case["bridged"] = json!(bridged);
+                                case["calls"] = json!(seq);
+                                run.violation(&kind, format!("{} on {}", msg, c.text.chars().take(300).collect::<String>()), case);
+                            }
+                        }
+                    }
+                },
+                &|k| src.describe(k / 2),
+            );
+            for st in res {
+                run.add_counts(0, st.1, st.0, st.0);
+            }
+        }
+    }
     run.sample(json!({"type": "call_seq", "text": "s(a).s(b).ac(a,neg(b)).ac(b,neg(a)).", "bridged": false, "calls": [13, 4, 1], "call_names": [CALL_NAMES[13], CALL_NAMES[4], CALL_NAMES[1]]}));
     run.extra("states_are", json!("store states (a) and ADF objects with their call history (b)"));
     run.extra("transitions_are", json!("store operations (a) and public calls executed inside call sequences (b)"));
 }
 
 pub fn replay(c: &Value) -> Vec<(String, String)> {
+    if c["type"] == "call_seq_mid" {
+        let seq: Vec<usize> = c["calls"].as_array().map(|a| a.iter().map(|x| x.as_u64().unwrap_or(0) as usize).collect()).unwrap_or_default();
+        let n = c["labels"].as_array().map(|a| a.len()).unwrap_or(6);
+        let mut fresh: Vec<Option<Norm>> = vec![None; CALLS];
+        return seq_case_n(c["text"].as_str().unwrap_or(""), n, c["bridged"].as_bool().unwrap_or(false), &seq, &mut fresh, true);
+    }
     if c["type"] == "call_seq" {
         let tts: Vec<TT> = c["tts"].as_array().map(|a| a.iter().map(|x| x.as_u64().unwrap_or(0) as TT).collect()).unwrap_or_default();
         let seq: Vec<usize> = c["calls"].as_array().map(|a| a.iter().map(|x| x.as_u64().unwrap_or(0) as usize).collect()).unwrap_or_default();
